@@ -54,14 +54,16 @@ class Recorder:
 
 
 def run_cli(binary, rec, cfg, group, shape_args, potential, reps, threads, extra, workdir, shape_kind,
-            exp_items, outfile=None, expect_ok=True):
+            exp_items, outfile=None, expect_ok=True, keep_existing=False, verbose=0):
     tag = "inv%d" % len(rec.records)
     base = outfile or os.path.join(workdir, tag)
     trace = os.path.join(workdir, tag + ".trace")
     errf = os.path.join(workdir, tag + ".stderr")
-    for p in (trace, base + ".json", base + ".svg"):
+    for p in (trace,) + (() if keep_existing else (base + ".json", base + ".svg")):
         if os.path.exists(p):
             os.remove(p)
+    if verbose:
+        extra = ["-" + "v" * verbose] + list(extra)
     args = [binary, "--outfile", base, "--replications", str(reps), "--potential", potential] + extra + [group] + shape_args
     env = dict(os.environ, RAYON_NUM_THREADS=str(threads), PACKING_VERIF_TRACE=trace, RUST_BACKTRACE="0")
     with open(errf, "w") as ef:
@@ -136,6 +138,21 @@ def observe(tier, seed, want_cli=True, want_pool=True, cli_focus="all"):
                     run_cli(binary, rec, cfg, g, sargs, pot, maxreps, threads, opt, work, kind, items)
                     stats["cli_invocations"] += 1
                 k += 1
+        # the output path already holds the (longer) files of an earlier run
+        cfg = rec.new_cfg()
+        shared = os.path.join(work, "shared_out")
+        for p in (shared + ".json", shared + ".svg"):
+            if os.path.exists(p):
+                os.remove(p)
+        run_cli(binary, rec, cfg, "p2gg", ["trimer"], "Hard", 2, 2, opt, work, "trimer", 3, outfile=shared)
+        cfg = rec.new_cfg()
+        run_cli(binary, rec, cfg, "p1", ["circle"], "Hard", 2, 2, opt, work, "circle", 1, outfile=shared, keep_existing=True)
+        stats["cli_invocations"] += 2
+        # debug logging switched on (log statements are only evaluated then)
+        for (extra, v) in ((["--steps", "0"], 1), (["--steps", "30", "--inner-steps", "7"], 2), (["--steps", "0", "--inner-steps", "0"], 3)):
+            cfg = rec.new_cfg()
+            run_cli(binary, rec, cfg, "p2", ["circle"], "Hard", 2, 2, extra, work, "circle", 1, verbose=v)
+            stats["cli_invocations"] += 1
         # many replicas per thread and long stages (reductions that treat batches of replicas
         # differently show here)
         for (g, sargs, kind, items) in [("p1", ["polygon", "--sides", "4"], "polygon", 4)] + \
